@@ -20,8 +20,9 @@ schema-qualified names, every option).
   fragment, bracketed by the printer when above the compute level), COMMENT s; for the Hive rendering only COMMENT (the Hive printer writes nothing else:
   the other attributes must be unset — see `hiveProj` for tables that have them), and parameters only where the Hive printer keeps them;
 * MySQL: `PRIMARY KEY (cols)`, `UNIQUE KEY n (cols)`*, `KEY n (cols)`*, `FULLTEXT KEY n (cols)`* with prefix lengths `(n)`, `USING m`,
-  `COMMENT s`, `KEY_BLOCK_SIZE=n`; options ENGINE, AUTO_INCREMENT, DEFAULT CHARSET, COLLATE, ROW_FORMAT, STATS_PERSISTENT, COMMENT;
-  no foreign keys; none of the Hive-only fields;
+  `COMMENT s`, `KEY_BLOCK_SIZE=n`; `CONSTRAINT n FOREIGN KEY (cols) REFERENCES t (cols) [ON DELETE a] [ON UPDATE a]`* with the four actions
+  the parser knows; options ENGINE, AUTO_INCREMENT, DEFAULT CHARSET, COLLATE, ROW_FORMAT, STATS_PERSISTENT, COMMENT; none of the
+  Hive-only fields — i.e. EVERYTHING the MySQL printer can write;
 * Hive: table COMMENT, PARTITIONED BY (cols), ROW FORMAT SERDE, ROW FORMAT DELIMITED FIELDS TERMINATED BY, STORED AS INPUTFORMAT,
   STORED AS TEXTFILE, OUTPUTFORMAT, LOCATION, TBLPROPERTIES (k=v, …); none of the keys and MySQL-only options; a blank-separated option
   value is not the token `=` (`valOK`);
@@ -258,12 +259,15 @@ def ddl2 : String := "CREATE TABLE t (a int)"
 def ddl3 : String := "CREATE TABLE `t-1` (`x` char(1) COMMENT ',', y varchar(8) DEFAULT 'a,b')"
 def ddl5 : String := "CREATE TABLE t (a DECIMAL((1 = 1), 2) DEFAULT (1 OR 2), b enum('x','y,z') NOT NULL, " ++
   "g int GENERATED ALWAYS AS ((a OR 1)) VIRTUAL NOT NULL COMMENT 'g', h int GENERATED ALWAYS AS (a + 1) STORED)"
+def ddl6 : String := "CREATE TABLE c (a int, b int, `p` int, KEY k (a), CONSTRAINT fk1 FOREIGN KEY (a, `b`) REFERENCES p (x, y) ON DELETE CASCADE " ++
+  "ON UPDATE SET NULL, CONSTRAINT `fk2` FOREIGN KEY (p) REFERENCES q (z) ON UPDATE NO ACTION, CONSTRAINT fk3 FOREIGN KEY (p) REFERENCES q (z) " ++
+  "ON DELETE RESTRICT, CONSTRAINT fk4 FOREIGN KEY (p) REFERENCES q (z)) ENGINE=InnoDB"
 def ddl4 : String := "CREATE TABLE db.t (`id` bigint(20) NOT NULL COMMENT 'pk', v DECIMAL(10,2) COMMENT 'v', w double, z tinyint(1)) COMMENT='tc'"
 
-#guard okMy ddl1 && okMy ddl2 && okMy ddl3 && okMy ddl4 && okMy ddl5
+#guard okMy ddl1 && okMy ddl2 && okMy ddl3 && okMy ddl4 && okMy ddl5 && okMy ddl6
 -- a raw comment string that IS the comma token (no parse produces it) is outside the fragment (`segsOK`)
 #guard (match parseMy ddl2 with | some c => FragCreate .MYSQL c && !FragCreate .MYSQL { c with comment := some "=" , columns := c.columns.map fun x => { x with comment := some "," } } | none => false)
-#guard okConv ddl1 false && okConv ddl1 true && okConv ddl2 true && okConv ddl4 false && okConv ddl4 true && okConv ddl5 false
+#guard okConv ddl1 false && okConv ddl1 true && okConv ddl2 true && okConv ddl4 false && okConv ddl4 true && okConv ddl5 false && okConv ddl6 true
 
 /-- a Hive table with every Hive option, built from a converted table by the helpers -/
 def hiveFull : Option CreateTable :=
